@@ -157,10 +157,12 @@ def pred_mixed_sign(case, field=None):
         return False
 
     def mixed(a, b):
+        # the solver compares unsigned (not both operands signed) while some term is negative in plain integer
+        # arithmetic: a negative literal, a signed field or a subtraction anywhere inside either operand
         sa, sb = sem.signed(a, c), sem.signed(b, c)
-        if sa == sb:
+        if sa and sb:
             return False
-        return can_be_negative(a if sa else b)
+        return can_be_negative(a) or can_be_negative(b)
 
     def fn(e):
         if e[0] == "bin" and e[1] in sem.CMP:
